@@ -41,8 +41,8 @@ func c11Integrated(e *Env) {
 	e.Probe("integrated-real-cache")
 	opts := gostatsd.CacheOptions{
 		CacheRefreshPeriod:        []time.Duration{50 * time.Millisecond, 100 * time.Millisecond, time.Second}[e.Draw(3)],
-		CacheTTL:                  []time.Duration{200 * time.Millisecond, time.Second, 5 * time.Second}[e.Draw(3)],
-		CacheNegativeTTL:          []time.Duration{50 * time.Millisecond, 200 * time.Millisecond, time.Second}[e.Draw(3)],
+		CacheTTL:                  []time.Duration{200 * time.Millisecond, time.Second, 5 * time.Second, 0}[e.Draw(4)],
+		CacheNegativeTTL:          []time.Duration{50 * time.Millisecond, 200 * time.Millisecond, time.Second, 0}[e.Draw(4)],
 		CacheEvictAfterIdlePeriod: []time.Duration{300 * time.Millisecond, 2 * time.Second, 10 * time.Second}[e.Draw(3)],
 	}
 	prov := &scriptedProvider{gate: NewGate("provider"), batch: e.Range(1, 3)}
